@@ -1307,3 +1307,9 @@ R.seed("C04.i", F_MSG, "        if mid is not None:\n", "        if mid:\n", "me
 R.seed("C04.i", F_MSG, "        self.mid = _mid\n", "        self.mid = _mid or None\n", "message ID 0 never reaches the field")
 R.seed("C04.j", F_MSG, "        msg.mtype = Type(mtype)\n", "        msg.mtype = Type(mtype)\n        class _Brief(TransportTuning):\n            MAX_RETRANSMIT = 0\n        msg.transport_tuning = _Brief()\n", "received messages carry a tuning whose EXCHANGE_LIFETIME is 202 s")
 R.seed("C04.j", F_MSG, "        msg.mtype = Type(mtype)\n", "        msg.mtype = Type(mtype)\n        msg.transport_tuning.MAX_LATENCY = 50\n", "a parameter of the received message's tuning re-defined at run time")
+
+# sixth pass: C04.j evaluates what the tuning classes compute, through methods with arguments, staticmethods, helper
+# functions and sums (ClassEval is an evaluator, not a matcher of single-expression properties): a deviation hidden in
+# such a helper is still a deviation
+R.seed("C04.j", F_MSG, "        msg.mtype = Type(mtype)\n", "        msg.mtype = Type(mtype)\n        class _Brief(TransportTuning):\n            @staticmethod\n            def _span(timeout, doublings, factor):\n                return timeout * (2**doublings - 1) * factor\n            MAX_TRANSMIT_SPAN = property(lambda self: self._span(self.ACK_TIMEOUT, self.MAX_RETRANSMIT - 1, self.ACK_RANDOM_FACTOR))\n        msg.transport_tuning = _Brief()\n", "received messages carry a tuning whose span helper is called with one doubling too few: EXCHANGE_LIFETIME is 223 s")
+R.seed("C04.j", F_MSG, "        msg.mtype = Type(mtype)\n", "        msg.mtype = Type(mtype)\n        class _Brief(TransportTuning):\n            @property\n            def MAX_TRANSMIT_SPAN(self):\n                return sum(self.ACK_TIMEOUT * 2**i for i in range(self.MAX_RETRANSMIT))\n        msg.transport_tuning = _Brief()\n", "received messages carry a tuning whose span is summed without the random factor: EXCHANGE_LIFETIME is 232 s")
